@@ -29,7 +29,7 @@ func init() {
 	hx.Register(&hx.Prop{
 		ID:    "C18",
 		Level: "exploration",
-		Rule: "boot order: all 65536 boot numbers, each alone, and all lists of length 0..4 over {0000,0001,001A,00FF,ABCD,FFFF} in every order; the store holds BootOrder and one load option per number under the firmware's name Boot+4 upper-case hex digits; " +
+		Rule: "boot order: all 65536 boot numbers, each alone, and all lists of length 0..4 over {0000,0001,001A,00FF,ABCD,FFFF} in every order, repeats included, and lists of 5/64/300 entries with one number repeated or two alternating; the store holds BootOrder and one load option per number under the firmware's name Boot+4 upper-case hex digits; " +
 			"oracle: GetBootOrder returns exactly those names in order and GetBootEntry(name) yields the description stored for that number, through the Efivarfs methods and through the package-level twins efi.GetBootOrder / efi.GetBootEntry over the same files. " +
 			"load options: attributes x descriptions x every ordered node sequence of length 0..3 over {PCI, ACPI, HD-MBR, HD-GPT, File, FvFile, USB} x per-kind field values, built by an independent encoder; oracle: every field recovered, " +
 			"File/HD nodes parse as the UEFI text form with equal field values; every BMP character and non-BMP characters across the planes as file path and description; every sequence of 1..3 file-path nodes over 15 path names with/without separators at either end; every ordered pair of 15 options decoded into one reused EFILoadOption value (second decode exact, the node slice kept from the first unchanged). non-trivial = all oracle clauses evaluated; distinct = distinct encoded input",
@@ -475,19 +475,24 @@ func c18Run(c *hx.Ctx, tier, unit string) {
 			if len(cur) == 4 {
 				return
 			}
+			// an entry may occur more than once (firmware does not forbid it): every entry yields a name
 			for _, a := range alpha {
-				dup := false
-				for _, x := range cur {
-					if x == a {
-						dup = true
-					}
-				}
-				if !dup {
-					rec(append(cur, a))
-				}
+				rec(append(append([]uint16{}, cur...), a))
 			}
 		}
 		rec(nil)
+		// long lists: one number repeated, two alternating, a run in the middle
+		for _, n := range []int{5, 64, 300} {
+			same := make([]uint16, n)
+			alt := make([]uint16, n)
+			for i := range same {
+				same[i] = 0x001A
+				alt[i] = uint16(i % 2)
+			}
+			c18Order(c, same)
+			c18Order(c, alt)
+			c18Order(c, append(append([]uint16{7}, same...), 9))
+		}
 	case strings.HasPrefix(unit, "loadopt#"):
 		k, _ := strconv.Atoi(strings.TrimPrefix(unit, "loadopt#"))
 		variants := map[string][]dpgen.Node{}
